@@ -101,6 +101,17 @@ def double_chain(d, k=2):
     return c
 
 
+def double_chain_over_pruned(d, lvl=1):
+    """the same adversarial sharing, but every cell has level > 0 (a pruned branch at the bottom)"""
+    y = bytes([1, 1 << (lvl - 1)]) + bytes(range(32)) + b'\x00\x05'
+    b = Builder(type_=1)
+    b.store_bytes(y)
+    c = b.end_cell()
+    for k in range(d):
+        c = Builder().store_uint(k % 251, 8).store_ref(c).store_ref(c).end_cell()
+    return c
+
+
 def ladder(d):
     a = Builder().store_uint(1, 8).end_cell()
     b = Builder().store_uint(2, 8).end_cell()
@@ -133,6 +144,7 @@ def generate(tier, seed, ctx):
     for d in (list(range(1, 25)) + [30, 40, 50, 60] if q else list(range(1, 61)) + [100, 200, 500, 1000]):
         built('double_chain', d + 1, 2 * d, lambda: double_chain(d))
     for d in ([3, 10, 20, 40] if q else [3, 10, 20, 40, 100, 300]):
+        built('double_chain_pruned', d + 1, 2 * d, lambda: double_chain_over_pruned(d, 1 + d % 3))
         built('ladder', 2 * d + 3, 4 * d + 2, lambda: ladder(d))
         built('quad_chain', d + 1, 4 * d, lambda: double_chain(d, 4))
     import bockit
@@ -166,6 +178,11 @@ def generate(tier, seed, ctx):
             for tail in (b'', body[:10], body):
                 data = hdr + tail
                 rec('from_boc_adversarial_header', 0, 0, len(data), lambda: Cell.from_boc(data))
+            for magic in (b'\x68\xff\x65\xf3', b'\xac\xc3\xa7\x28'):
+                for cells in (b'\xff' * size, b'\x00' * (size - 1) + b'\x03'):
+                    for tot in (b'\xff' * offb, (40).to_bytes(offb, 'big')):
+                        data3 = magic + bytes([size, offb]) + cells + (1).to_bytes(size, 'big') + b'\x00' * size + tot + body[:40]
+                        rec('from_boc_adversarial_legacy_header', 0, 0, len(data3), lambda: Cell.from_boc(data3))
             hdr2 = b'\xb5\xee\x9c\x72' + bytes([flags | size, offb]) + b'\xff' * size + (1).to_bytes(size, 'big') + b'\x00' * size + (180).to_bytes(offb, 'big')
             data2 = hdr2 + b'\x00' * size + body
             rec('from_boc_adversarial_cells', 0, 0, len(data2), lambda: Cell.from_boc(data2))
